@@ -47,10 +47,10 @@ def with_timeout(f, seconds=0.25):
         signal.setitimer(signal.ITIMER_REAL, 0)
 
 
-def build(desc, **kw):
+def build(desc, slow=False, **kw):
     """-> (module, export dict) ; raises whatever Grammar() raises, or ExportError"""
     _captured.clear()
-    g = with_timeout(lambda: Grammar(desc, **kw), 5.0)
+    g = with_timeout(lambda: Grammar(desc, **kw), 120.0 if slow else 10.0)
     rules = _captured.get('rules')
     if rules is None:
         raise ExportError('translator._assign_ids was not reached')
@@ -129,7 +129,10 @@ def observe_raw(g, ex, entry, text, pos, timeout=0.25):
     name = ex['rule_names'][entry]
     func = getattr(g, '_try_' + name)
     try:
-        st, res, p = with_timeout(lambda: drive(g, func, text, pos), timeout)
+        try:
+            st, res, p = with_timeout(lambda: drive(g, func, text, pos), timeout)
+        except Timeout:         # a loaded machine, or a genuinely diverging parse: try once more, generously
+            st, res, p = with_timeout(lambda: drive(g, func, text, pos), 8 * timeout)
     except Timeout:
         return 'timeout'
     except (MemoryError, RecursionError):
@@ -155,7 +158,10 @@ def observe_parse(g, ex, entry, text, pos, full, timeout=0.25, module_level=Fals
     except AttributeError as e:
         return f'(exc AttributeError:{e})'
     try:
-        v = with_timeout(lambda: f(text, pos, full), timeout)
+        try:
+            v = with_timeout(lambda: f(text, pos, full), timeout)
+        except Timeout:
+            v = with_timeout(lambda: f(text, pos, full), 8 * timeout)
         return f'(return {canon(v, ex["classes"], raw=False)})'
     except Timeout:
         return 'timeout'
